@@ -179,12 +179,19 @@ impl PoolAllocator {
         (ptr.as_ptr() as usize + size - adjusted_start) / bucket_size
     }
 
+    /// Distance between the start addresses of two consecutive buckets. The bucket size is
+    /// rounded up to the bucket alignment so that every bucket, not only the first one, is
+    /// aligned even when the bucket layout's size is not a multiple of its alignment.
+    fn bucket_stride(&self) -> usize {
+        align(self.bucket_size, self.bucket_alignment)
+    }
+
     fn verify_ptr_is_managed_by_allocator(&self, ptr: NonNull<u8>) {
         let position = ptr.as_ptr() as usize;
         debug_assert!(
             !(position < (self.start.as_ptr() as usize)
                 || position > (self.start.as_ptr() as usize) + self.size
-                || !(position - self.start.as_ptr() as usize).is_multiple_of(self.bucket_size)),
+                || !(position - self.start.as_ptr() as usize).is_multiple_of(self.bucket_stride())),
             "The pointer {ptr:?} is not managed by this allocator."
         );
     }
@@ -193,7 +200,7 @@ impl PoolAllocator {
         self.verify_ptr_is_managed_by_allocator(ptr);
         let position = ptr.as_ptr() as usize;
 
-        ((position - self.start.as_ptr() as usize) / self.bucket_size) as u32
+        ((position - self.start.as_ptr() as usize) / self.bucket_stride()) as u32
     }
 }
 
@@ -217,7 +224,7 @@ impl Allocate<NonNull<u8>> for PoolAllocator {
                     self.start
                         .as_ptr()
                         .cast_mut()
-                        .add(v as usize * self.bucket_size),
+                        .add(v as usize * self.bucket_stride()),
                 )
             }),
             Err(_) => {
